@@ -87,7 +87,7 @@ def tree_key(repo):
     return h.hexdigest()[:20]
 
 
-def run_harness(src_dir, timeout=900):
+def run_harness(src_dir, timeout=240):
     """src_dir: a scratch copy of a repository tree.  Returns (status, lines)."""
     t = os.path.join(src_dir, 'crates', 'stark', 'src', 'tests')
     shutil.copy(HARNESS, os.path.join(t, 'diff_harness.rs'))
